@@ -28,10 +28,12 @@ import (
 )
 
 type gEvent struct {
-	Op    string `json:"op"` // arrive eof mark gate spawn read check dec
+	Op    string `json:"op"` // arrive eof mod take mark gate spawn read check dec rearm close
 	A     int    `json:"a,omitempty"`
 	B     int    `json:"b,omitempty"`
 	R     int    `json:"readEvents"`
+	Ready bool   `json:"ready"` // the harness's epoll: the descriptor is on the ready list
+	Armed bool   `json:"armed"`
 	Bytes []byte `json:"-"`
 	Th    string `json:"thread"`
 }
@@ -39,6 +41,7 @@ type gEvent struct {
 type gateCase struct {
 	Seed     int64    `json:"case_seed"`
 	BufLen   int      `json:"read_buffer"`
+	Oneshot  bool     `json:"oneshot"`
 	Script   []string `json:"poller_script"`
 	Events   []string `json:"events,omitempty"`
 	Schedule []int    `json:"schedule,omitempty"`
@@ -76,9 +79,14 @@ func runGateCase(rep *hx.Report, cseed int64, model *hx.Model, verbose bool) {
 		}
 	}()
 	bufLen := 1 + r.Intn(16)
-	gc := &gateCase{Seed: cseed, BufLen: bufLen}
+	oneshot := r.Intn(2) == 0
+	gc := &gateCase{Seed: cseed, BufLen: bufLen, Oneshot: oneshot}
 
-	g := nbio.NewEngine(nbio.Config{NPoller: 1, EpollMod: nbio.EPOLLET, AsyncReadInPoller: true, ReadBufferSize: bufLen})
+	conf := nbio.Config{NPoller: 1, EpollMod: nbio.EPOLLET, AsyncReadInPoller: true, ReadBufferSize: bufLen}
+	if oneshot {
+		conf.EPOLLONESHOT = nbio.EPOLLONESHOT
+	}
+	g := nbio.NewEngine(conf)
 	nbio.VerifRPPrepareEngine(g, fds[0]+8)
 
 	var (
@@ -93,6 +101,14 @@ func runGateCase(rep *hx.Report, cseed int64, model *hx.Model, verbose bool) {
 		badR      string
 		eofSent   bool
 		casRetry  int
+		spawned   int
+		nread     int
+		marks     int
+		doneReading = map[string]bool{}
+		// the epoll side, simulated (K3): ET queues the descriptor on every arrival / shutdown; one-shot only while armed,
+		// reporting disarms, every EPOLL_CTL_MOD arms and queues it iff it is readable
+		armed = true
+		ready bool
 	)
 	var c *nbio.Conn
 	thName := func() string {
@@ -104,22 +120,34 @@ func runGateCase(rep *hx.Report, cseed int64, model *hx.Model, verbose bool) {
 	rec := func(e gEvent) {
 		e.R = int(nbio.VerifReadEvents(c))
 		e.Th = thName()
+		e.Ready, e.Armed = ready, armed
 		if (e.R < 0 || e.R > 2) && badR == "" {
 			badR = fmt.Sprintf("readEvents = %d after %s (event %d)", e.R, e.Op, len(events))
 		}
 		events = append(events, e)
 	}
+	kernelMod := func() {
+		armed = true
+		if len(sent)-nread > 0 || eofSent {
+			ready = true
+		}
+	}
 	g.IOExecute = func(f func(*[]byte)) {
+		spawned++
 		rec(gEvent{Op: "spawn"})
 		verifsched.Go(func() {
 			started++
-			running++
+			running++ // tasks that may still read: a task that has lowered the counter to 0 only re-arms
 			if running > maxRun {
 				maxRun = running
 			}
 			b := make([]byte, bufLen)
 			f(&b)
-			running--
+			if th := thName(); doneReading[th] {
+				delete(doneReading, th)
+			} else {
+				running--
+			}
 			ended++
 		})
 	}
@@ -142,13 +170,28 @@ func runGateCase(rep *hx.Report, cseed int64, model *hx.Model, verbose bool) {
 				casRetry++
 			}
 		case "add":
+			if a == 0 {
+				doneReading[thName()] = true
+				running--
+			}
 			rec(gEvent{Op: "dec", A: a})
 		case "eofload":
 			rec(gEvent{Op: "check", A: a})
 		case "eofstore":
-			rec(gEvent{Op: "mark"})
+			marks++
+			if marks == 1 { // storing 1 again on a later event with RDHUP changes nothing: not an action of the model
+				rec(gEvent{Op: "mark"})
+			}
 		case "read":
+			if b > 0 {
+				nread += b
+			}
 			rec(gEvent{Op: "read", A: a, B: b})
+		case "rearm":
+			if !nbio.VerifClosed(c) {
+				kernelMod()
+			}
+			rec(gEvent{Op: "rearm"})
 		}
 	}
 
@@ -175,14 +218,20 @@ func runGateCase(rep *hx.Report, cseed int64, model *hx.Model, verbose bool) {
 				k = 1 + r.Intn(2*bufLen+2)
 			}
 			script = append(script, pstep{kind: "arrive", n: k})
+			if oneshot && r.Intn(4) == 0 {
+				script = append(script, pstep{kind: "mod"}) // a Write / flush of the application re-arms the descriptor
+			}
 		}
 		script = append(script, pstep{kind: "event"})
+		if oneshot && r.Intn(3) == 0 {
+			script = append(script, pstep{kind: "mod"}, pstep{kind: "event"})
+		}
 	}
 	if half {
 		for a := r.Intn(3); a > 0; a-- {
 			script = append(script, pstep{kind: "arrive", n: 1 + r.Intn(3*bufLen)})
 		}
-		script = append(script, pstep{kind: "eof", in: r.Intn(4) > 0})
+		script = append(script, pstep{kind: "eof", in: r.Intn(4) > 0}, pstep{kind: "event"})
 	}
 	for _, st := range script {
 		gc.Script = append(gc.Script, fmt.Sprintf("%s %d %v", st.kind, st.n, st.in))
@@ -196,6 +245,30 @@ func runGateCase(rep *hx.Report, cseed int64, model *hx.Model, verbose bool) {
 	})
 	s.Exclusive = true
 	s.MaxSteps = 20000
+	// the critical section of closeWithError that sets Conn.closed is the linearisation point of the close
+	closeSeen := false
+	cmux := nbio.VerifSchedConnMutex(c)
+	s.OnRelease = func(_ *verifsched.Thread, m *verifsched.Mutex) {
+		if m == cmux && !closeSeen && nbio.VerifClosed(c) {
+			closeSeen = true
+			rec(gEvent{Op: "close"})
+			ready, armed = false, false // the descriptor is about to be closed: nothing is reported for it any more
+		}
+	}
+	raise := func() {
+		if !oneshot || armed {
+			ready = true
+		}
+	}
+	eofIn := true
+	dispatch := func() { // epoll_wait reports the descriptor
+		ready = false
+		if oneshot {
+			armed = false
+		}
+		rec(gEvent{Op: "take"})
+		nbio.VerifRPAsyncEvent(c, !eofSent || eofIn, eofSent)
+	}
 	s.Go("poller", func() {
 		for _, st := range script {
 			switch st.kind {
@@ -212,19 +285,37 @@ func runGateCase(rep *hx.Report, cseed int64, model *hx.Model, verbose bool) {
 					hx.Fatal("gate: write to the peer end: %v", err)
 				}
 				sent = append(sent, b...)
+				raise()
 				rec(gEvent{Op: "arrive", A: st.n, Bytes: b})
 			case "event":
-				nbio.VerifRPAsyncEvent(c, true, false)
+				if ready {
+					dispatch()
+				}
 			case "eof":
 				syscall.Shutdown(peer, syscall.SHUT_WR)
 				eofSent = true
+				eofIn = st.in
+				raise()
 				rec(gEvent{Op: "eof"})
-				nbio.VerifRPAsyncEvent(c, st.in, true)
+			case "mod":
+				if !nbio.VerifClosed(c) {
+					kernelMod()
+					rec(gEvent{Op: "mod"})
+				}
 			}
 			verifsched.Yield()
 			if r.Intn(3) == 0 {
 				verifsched.Yield()
 			}
+		}
+		// the poller keeps serving what epoll reports until nothing is left to report and no task is running
+		for {
+			verifsched.WaitUntil(func() bool { return ready || spawned == ended })
+			if !ready {
+				break
+			}
+			dispatch()
+			verifsched.Yield()
 		}
 	})
 	terminated := s.Run()
@@ -259,6 +350,9 @@ func runGateCase(rep *hx.Report, cseed int64, model *hx.Model, verbose bool) {
 	if half {
 		rep.Stat("G.half-close")
 	}
+	if oneshot {
+		rep.Stat("G.oneshot")
+	}
 	if casRetry > 0 {
 		rep.Stat("G.cas-lost-against-the-task's-decrement")
 	}
@@ -279,6 +373,10 @@ func runGateCase(rep *hx.Report, cseed int64, model *hx.Model, verbose bool) {
 			rep.Stat("G.half-close-while-task-alive")
 		case e.Op == "check" && e.A == 1:
 			rep.Stat("G.task-sees-readEOF")
+		case e.Op == "mod" && e.R >= 1:
+			rep.Stat("G.oneshot-rearmed-by-the-write-side-while-a-task-is-alive")
+		case e.Op == "rearm":
+			rep.Stat("G.oneshot-task-rearms")
 		}
 	}
 	if rep.Cases%997 == 0 {
@@ -334,6 +432,9 @@ func runGateCase(rep *hx.Report, cseed int64, model *hx.Model, verbose bool) {
 		if eofSent && !closed {
 			add("stall-gate", "the peer shut down its sending side and the event was dispatched, but the connection was never closed")
 		}
+		if oneshot && !closed && !armed {
+			add("stall-gate", "one-shot: at quiescence the connection is open and its descriptor is disarmed: no event can ever be reported again")
+		}
 		if !eofSent && closed {
 			add("lost-or-reordered-bytes-gate", "the connection was closed although the peer never shut down")
 		}
@@ -347,7 +448,11 @@ func runGateCase(rep *hx.Report, cseed int64, model *hx.Model, verbose bool) {
 		rep.Add(hx.Finding{Kind: "mismatch", Property: "C02", Signature: "gatemodel", What: fmt.Sprintf("gate case %d: %s", cseed, what),
 			Replay: map[string]interface{}{"case": gc, "rerun": fmt.Sprintf("readpath -noreal -gateseed %d -model <path>", cseed)}})
 	}
-	model.Ask("reset")
+	if oneshot {
+		model.Ask("reset 1")
+	} else {
+		model.Ask("reset 0")
+	}
 	nd := 0
 	for i, e := range events {
 		var ans string
@@ -366,9 +471,9 @@ func runGateCase(rep *hx.Report, cseed int64, model *hx.Model, verbose bool) {
 		default:
 			ans = model.Ask("%s", e.Op)
 		}
-		var en, mr, sp, ed, fl, cl, mnd, mna, mnt int
+		var en, mr, sp, ed, fl, cl, mnd, mna, mnt, mar, mre, mh int
 		var ph string
-		if _, err := fmt.Sscanf(ans, "%d r=%d t=%s sp=%d e=%d f=%d c=%d nd=%d na=%d nt=%d", &en, &mr, &ph, &sp, &ed, &fl, &cl, &mnd, &mna, &mnt); err != nil {
+		if _, err := fmt.Sscanf(ans, "%d r=%d t=%s sp=%d e=%d f=%d c=%d nd=%d na=%d nt=%d ar=%d re=%d h=%d", &en, &mr, &ph, &sp, &ed, &fl, &cl, &mnd, &mna, &mnt, &mar, &mre, &mh); err != nil {
 			hx.Fatal("model answer %q: %v", ans, err)
 		}
 		if en != 1 {
@@ -381,16 +486,20 @@ func runGateCase(rep *hx.Report, cseed int64, model *hx.Model, verbose bool) {
 			mism(fmt.Sprintf("event %d (%s by %s): readEvents = %d, model %d (%s)", i, e.Op, e.Th, e.R, mr, ans))
 			return
 		}
+		if cl == 0 && ((ed == 1) != e.Ready || (mar == 1) != e.Armed) {
+			mism(fmt.Sprintf("event %d (%s by %s): epoll side ready=%v armed=%v, model edge=%d armed=%d (%s)", i, e.Op, e.Th, e.Ready, e.Armed, ed, mar, ans))
+			return
+		}
 		if mnd != nd {
 			mism(fmt.Sprintf("event %d (%s): %d bytes read so far, model %d (%s)", i, e.Op, nd, mnd, ans))
 			return
 		}
 	}
 	ans := model.Ask("gate") // a disabled probe: only to read the final state
-	var en, mr, sp, ed, fl, cl, mnd, mna, mnt int
+	var en, mr, sp, ed, fl, cl, mnd, mna, mnt, mar, mre, mh int
 	var ph string
-	fmt.Sscanf(ans, "%d r=%d t=%s sp=%d e=%d f=%d c=%d nd=%d na=%d nt=%d", &en, &mr, &ph, &sp, &ed, &fl, &cl, &mnd, &mna, &mnt)
-	if en != 0 || ph != "N" || sp != 0 {
+	fmt.Sscanf(ans, "%d r=%d t=%s sp=%d e=%d f=%d c=%d nd=%d na=%d nt=%d ar=%d re=%d h=%d", &en, &mr, &ph, &sp, &ed, &fl, &cl, &mnd, &mna, &mnt, &mar, &mre, &mh)
+	if en != 0 || ph != "N" || sp != 0 || (ed != 0 && cl == 0) || mre != 0 || mh != 0 {
 		mism(fmt.Sprintf("the implementation is quiescent (all threads ended) but the model is not: %s", ans))
 		return
 	}
